@@ -108,7 +108,7 @@ func TestHistories(t *testing.T) {
 			// outcome script: mostly a single final reply
 			script := []hx.Outcome{hx.Final}
 			for rapid.IntRange(0, 6).Draw(t, "fault") == 0 && len(script) < 4 {
-				script = append([]hx.Outcome{rapid.SampledFrom([]hx.Outcome{hx.Busy, hx.TimeoutCC, hx.Garbage, hx.BadSig}).Draw(t, "faultKind")}, script...)
+				script = append([]hx.Outcome{rapid.SampledFrom([]hx.Outcome{hx.Busy, hx.TimeoutCC, hx.Garbage, hx.BadSig, hx.StrayOK, hx.StraySetup, hx.StrayASF}).Draw(t, "faultKind")}, script...)
 			}
 			sc.Script, sc.Pos = script, 0
 			before := len(w.BMC.Log)
